@@ -321,15 +321,23 @@ def c20(run):
     exes_n = D.build_or_violation(run, ['introspect'], 'n')
     if exes and exes_n:
         fa = D.factors_file(exes_n['introspect'])
-        def one(b):
+        shards = {'qty': 4, 'rel': 2}
+        jobs = [(b, k, shards.get(b, 1)) for b in names for k in range(shards.get(b, 1))]
+        def one(job):
+            b, k, n = job
             sub = D.Run(run.prop, 'quick')
-            D.run_engine(sub, b, exes[b], [], flavour='s', scale=scale, extra_env={'VERIF_FACTORS': fa, 'VERIF_SKIP': SAN_SKIP}, tag='.' + b)
+            env = {'VERIF_FACTORS': fa, 'VERIF_SKIP': SAN_SKIP, 'VERIF_MAXN': '20000' if quick else '200000'}
+            if n > 1: env['VERIF_SHARD'] = '%d/%d' % (k, n)
+            D.run_engine(sub, b, exes[b], [], flavour='s', scale=scale, extra_env=env, tag='.%s%d' % (b, k))
             return sub
-        with cf.ThreadPoolExecutor(max_workers=8) as ex:
-            for sub in ex.map(one, names):
+        with cf.ThreadPoolExecutor(max_workers=12) as ex:
+            for sub in ex.map(one, jobs):
                 run.evaluations += sub.evaluations; run.nontrivial += sub.nontrivial
                 for k, v in sub.classes.items(): run.classes[k] = run.classes.get(k, 0) + v
-                run.per_check.update(sub.per_check); run.samples += sub.samples[:4]; run.notes += sub.notes; run.fails += sub.fails
+                for k, v in sub.per_check.items():
+                    if k in run.per_check: run.per_check[k] = dict(evaluations=run.per_check[k]['evaluations'] + v['evaluations'], distinct_nontrivial=run.per_check[k]['distinct_nontrivial'] + v['distinct_nontrivial'])
+                    else: run.per_check[k] = v
+                run.samples += sub.samples[:3]; run.notes += sub.notes; run.fails += sub.fails
     run.rules['san'] = ('every rapidcheck property of C01-C18 (all engines) re-run in a build with AddressSanitizer, UndefinedBehaviorSanitizer (incl. enum, signed-integer-overflow, bounds, null, float-cast-overflow; no recovery) and '
                         '_GLIBCXX_ASSERTIONS, at %s of the quick counts; every registry call is wrapped: any exception other than std::bad_alloc is a failure; a sanitizer abort is attributed to the case being run' % ('25%' if quick else '200%'))
     # the parsers on arbitrary bytes: rapidcheck (normal flavour) + libFuzzer
